@@ -298,12 +298,12 @@ func runC08(c *Ctx) {
 		}
 		isRem := func(v ssa.Value) bool {
 			b, ok := ir.Strip(v).(*ssa.BinOp)
-			return ok && b.Op == token.REM && isFileSize(b.X) && isRecSize(b.Y)
+			return ok && b.Op == token.REM && isFileSize(liveValue(b.X, b)) && isRecSize(liveValue(b.Y, b))
 		}
 		var tr []ssa.Instruction
 		for _, in := range find(tf, callTo(truncFile)) {
 			a := argsOf(in)
-			if b, isB := ir.Strip(a[0]).(*ssa.BinOp); len(a) == 1 && isB && b.Op == token.SUB && isFileSize(b.X) && isRem(b.Y) {
+			if b, isB := ir.Strip(a[0]).(*ssa.BinOp); len(a) == 1 && isB && b.Op == token.SUB && isFileSize(liveValue(b.X, b)) && isRem(b.Y) {
 				tr = append(tr, in)
 			}
 		}
